@@ -3,7 +3,7 @@
    CHECKER (Model.Check.check, i.e. Ty::check / TypeArgs::is_instance `args.len() != params.len()`)
    at every site where a type can be written or arises: definition signature, let annotation,
    destructor type arguments, case type arguments, the type a constructor / `new` is checked
-   against, and (since fix <commit15>) the types written inside data/codata declarations
+   against, and (since fix eb42971) the types written inside data/codata declarations
    ([arity_decl_field]; the checker before that fix did not: [old_arity_decl_field_refuted]).
    All checker-level statements rest on Ty::check being sound for the specification's [wf_ty],
    whose arity test is Nat.eqb: they fail to prove if the model's test is weakened to "fewer". *)
@@ -183,7 +183,7 @@ Proof.
     eapply forallb_false_in; [exact Hb|exact Hbad].
   - rewrite Ht, Hbad. apply andb_false_r.
 Qed.
-(* ... and so does the checker since fix <commit15> (Ty::check_template checks the whole type), for ALL programs ... *)
+(* ... and so does the checker since fix eb42971 (Ty::check_template checks the whole type), for ALL programs ... *)
 Theorem arity_decl_field : forall p td s t, In td (tdecls (fpdecls p)) -> In s (td_xtors td) ->
   (In t (map fbty (xs_args s)) \/ xs_ret s = Some t) ->
   bad_arity_in_decl (tdecls (fpdecls p)) (td_params td) t -> exists e, check p = CErr e.
